@@ -210,12 +210,16 @@ SInitF(prios, pinned) ==
 OtherClearF(s) == s
 
 (* normal form: orders relative to the global minimum, clock values as dense ranks                   *)
-MinOrd(s) == LET A == {s.ord[m] : m \in DOMAIN s.ord} \cup {s.g} IN CHOOSE x \in A : \A y \in A : x <= y
+(* the minimum is taken over g_lastPollOrder and the messages that are polled; a message without priority keeps   *)
+(* its old order, recorded as (capped) distance behind that minimum - the same normal form as the harness key     *)
+MinOrd(s) == LET A == {s.ord[m] : m \in Active(s.prio)} \cup {s.g} IN CHOOSE x \in A : \A y \in A : x <= y
 Norm(s, capBase) ==
   LET b == MinOrd(s)
       times == {s.lp[m] : m \in {m \in DOMAIN s.lp : s.lp[m] >= T0}} \cup {s.now}
       rank(t) == Cardinality({u \in times : u < t}) IN
-  [vec |-> s.vec, ord |-> [m \in DOMAIN s.ord |-> s.ord[m] - b], prio |-> s.prio, used |-> s.used, g |-> s.g - b,
+  [vec |-> s.vec,
+   ord |-> [m \in DOMAIN s.ord |-> IF s.prio[m] = 0 /\ s.ord[m] - b < 0 - capBase THEN 0 - capBase - 1 ELSE s.ord[m] - b],
+   prio |-> s.prio, used |-> s.used, g |-> s.g - b,
    base |-> Min2(b, capBase),
    lp |-> [m \in DOMAIN s.lp |-> IF s.lp[m] >= T0 THEN T0 + rank(s.lp[m]) ELSE s.lp[m]], now |-> T0 + rank(s.now)]
 
